@@ -63,6 +63,14 @@ def faults(rng, mfe, limit):
                     put("%s: base %d %s->%s" % (name, p, seq[p], c), [seq[:p] + c + seq[p + 1:] + " " + rest, t1, t2] if False else [h, seq[:p] + c + seq[p + 1:] + " " + rest, t1, t2])
             put("%s: base %d deleted" % (name, p), [h, seq[:p] + seq[p + 1:] + " " + rest, t1, t2])
             put("%s: base inserted at %d" % (name, p), [h, seq[:p] + rng.choice("ACGT") + seq[p:] + " " + rest, t1, t2])
+        # whole strands lost or gained at a strand break of a multi-strand record
+        cuts = [p for p in pos if seq[p] == "+"]
+        for p in cuts:
+            put("%s: trailing strands cut at break %d" % (name, p), [h, seq[:p] + " " + rest, t1, t2])
+        put("%s: empty strand appended" % name, [h, seq + "+ " + rest, t1, t2])
+        put("%s: extra strand appended" % name, [h, seq + "+" + "".join(rng.choice("ACGT") for _ in range(rng.choice([1, 4]))) + " " + rest, t1, t2])
+        if cuts:
+            put("%s: leading strand cut" % name, [h, seq[cuts[0] + 1:] + " " + rest, t1, t2])
         # numeric fields, structure fields
         f = rest.split(" ")
         put("%s: float damaged" % name, [h, seq + " " + "0.0.0 " + " ".join(f[1:]), t1, t2])
